@@ -323,6 +323,65 @@ def naming_pairs(res, ctx, rng):
                     return
 
 
+def announcer_inside_the_same_call(res, ctx, rng):
+    """The thread that emits a naming record is itself INSIDE an open call - every decodable call in turn - and the thread
+    it names makes the same call (its own START before or after the record, or no START at all: its END is then an orphan).
+    A record that says "that thread is my child / my exec copy / now runs for that process" is a statement about tables;
+    each thread's calls still pair with that thread's own records."""
+    inv = H.inventory()
+    calls = sorted(inv['bsd'])
+    tid_b, tid_a, pid = 0x222, 0x5151, 77
+    n = 0
+    for d in calls:
+        for x, k in [(x, k) for x in NAMING for k in (0, 1)]:
+            n += 1
+            if not ctx.mine(n):
+                continue
+            sa, sb = domain.gen_words(rng, d, 'S'), domain.gen_words(rng, d, 'S')
+            ea, eb = domain.gen_words(rng, d, 'E'), domain.gen_words(rng, d, 'E')
+            ea[0], eb[0] = 0, rng.choice((0, 2))
+            naming = H.A(x, H.NONE, H.naming_words(rng, x, tid_a, pid, k))
+            b_prog = [H.A(d, H.START, sb), naming, H.A(d, H.END, eb)]
+            for a_prog, orders in (([H.A(d, H.START, sa), H.A(d, H.END, ea)],
+                                    ('BBAAB', 'ABBAB', 'BABBA', 'BABAB', 'BBABA')),
+                                   ([H.A(d, H.END, ea)], ('BBAB', 'BBBA', 'ABBB'))):
+                bases = {}
+                ok = True
+                for t_, p_ in ((tid_a, a_prog), (tid_b, b_prog)):
+                    per, _, exc = run_stream(H.on_thread(t_, p_))
+                    if exc is not None:
+                        ok = False      # (a decoder that raises on these words alone: C07 / C09 territory, not a merge effect)
+                    bases[t_] = per.get(t_, [])
+                if not ok:
+                    res.count('announcer_sets_skipped_baseline_raises')
+                    continue
+                for order in orders:
+                    ia, ib, items = 0, 0, []
+                    for c in order:
+                        if c == 'A':
+                            items.append((tid_a, a_prog[ia]))
+                            ia += 1
+                        else:
+                            items.append((tid_b, b_prog[ib]))
+                            ib += 1
+                    per, _, exc = run_stream(items)
+                    res.count('announcer_inside_the_same_call_schedules')
+                    res.case(('announcer', d, x, k, order, len(a_prog)))
+                    case = {'programs': programs_case([a_prog, b_prog], [tid_a, tid_b]), 'order': order}
+                    if exc is not None:
+                        res.violation(f'c05-raises-{core.exc_name(exc)}', f'{x} naming thread {hex(tid_a)} emitted inside an open {d}, '
+                                      f'the named thread makes the same call (order {order}): {exc!r}', case)
+                        return
+                    for t_ in (tid_a, tid_b):
+                        if per.get(t_, []) != bases[t_]:
+                            res.violation('c05-per-thread-traces', f'{x} naming thread {hex(tid_a)} / pid {pid} emitted by thread '
+                                          f'{hex(tid_b)} inside its open {d} while the named thread makes the same call '
+                                          f'({"with" if len(a_prog) == 2 else "END without"} START of its own, order {order}): thread '
+                                          f'{hex(t_)} reports {[(a, b) for a, b, _ in per.get(t_, [])]}, alone '
+                                          f'{[(a, b) for a, b, _ in bases[t_]]}', case)
+                            return
+
+
 def two_feeders(res, ctx, rng):
     """The merged capture as it really arrives: one buffer per CPU.  ONE parser is fed by one live feed_generator() per
     buffer and the results are taken in turns; threads migrate between the buffers.  Whatever order of consumption that
@@ -380,11 +439,28 @@ def programs_case(programs, tids):
 def run(ctx):
     res = core.Result()
     rng = ctx.rng
+    n2i = ev.name2ids()
     for i in range(ctx.pick(24, 2000)):
         programs, tids = gen_programs(rng, pairs_everywhere=(i % 2 == 0))
         check_set(res, ctx, rng, programs, tids)
+        if i % 3 == 0:
+            # thread ids are plain integers and so are the keys of every other table the pipeline keeps: the same
+            # programs run by threads whose ids COINCIDE with keys of another key space that is live in the stream -
+            # the event id (or full debug id) of a call another thread makes, a pid, a string id
+            pools = []
+            for t, p in enumerate(programs):
+                others = [a for u, q in enumerate(programs) if u != t for a in q]
+                ids = [n2i[a[0]][0] | rng.choice((0, 0, 0, 1, 2)) for a in others if a[0] in n2i]
+                pools.append(ids + [100 * (u + 1) for u in range(len(programs)) if u != t] + [1000 * (u + 1) for u in range(len(programs)) if u != t])
+            new_tids = []
+            for t in range(len(programs)):
+                cand = [x for x in pools[t] if x not in new_tids and x not in tids]
+                new_tids.append(rng.choice(cand) if cand else tids[t])
+            check_set(res, ctx, rng, programs, new_tids)
+            res.count('program_sets_with_thread_ids_equal_to_other_live_keys')
     census(res, ctx, rng)
     naming_pairs(res, ctx, rng)
+    announcer_inside_the_same_call(res, ctx, rng)
     two_feeders(res, ctx, rng)
     # many threads at once (tables that are capped, flushed in batches or keyed by a hash show only then)
     for _ in range(ctx.pick(3, 40)):
@@ -435,9 +511,11 @@ def run(ctx):
     res.require('schedules_splitting_a_pair', 10)
     res.require('program_sets_exhaustively_scheduled', 1)
     res.require('many_thread_sets', 1)
+    res.require('program_sets_with_thread_ids_equal_to_other_live_keys', 4)
     res.require('schedules_through_a_dump', 20)
     res.require('census_schedules', 6000)
     res.require('naming_pair_schedules', 200)
+    res.require('announcer_inside_the_same_call_schedules', 2000)
     res.require('captures_fed_by_several_live_feeders', 100)
     return res
 
